@@ -497,3 +497,167 @@ M('c15-factory-merged-setter-wrong-polarity', 'C15', 'R6', HELP, _TWO_SETTERS,
   "    to_header_value = str if transform is not None else transform\n" + _ONE_SETTER)
 M('c15-factory-merged-setter-and-for-or', 'C15', 'R6', HELP, _TWO_SETTERS,
   "    to_header_value = transform and str\n" + _ONE_SETTER)
+
+
+# ------------------------------------------------------------- "refactoring + break" (second preserving wave)
+# k2-c15-2: the lower-case + Set-Cookie refusal block of get_header / set_header / delete_header / set_headers moved into a
+# module-level helper `_plain_header_name(name, error_message)`.  The refactoring itself is silent (R1 reads the helper's
+# returns, R2 proves "not set-cookie" inside it and judges its refusal); each mutant below is that refactoring plus one break.
+_K2_HELPER = """def _plain_header_name(name: str, error_message: str) -> str:
+    name = name.lower()
+    if name == 'set-cookie':
+        raise HeaderNotSupported(error_message)
+    return name
+
+
+class Response:
+"""
+
+
+def _k2_c15_2(helper=_K2_HELPER, delete_call="        name = _plain_header_name(name, 'This method cannot be used to remove cookies')\n"):
+    return [
+        {'file': RESP, 'old': "class Response:\n", 'new': helper},
+        {'file': RESP, 'old': """        name = name.lower()
+
+        if name == 'set-cookie':
+            raise HeaderNotSupported('Getting Set-Cookie is not currently supported.')
+""", 'new': "        name = _plain_header_name(name, 'Getting Set-Cookie is not currently supported.')\n"},
+        {'file': RESP, 'old': """        name = name.lower()
+
+        if name == 'set-cookie':
+            raise HeaderNotSupported('This method cannot be used to set cookies')
+""", 'new': "        name = _plain_header_name(name, 'This method cannot be used to set cookies')\n"},
+        {'file': RESP, 'old': """        name = name.lower()
+
+        if name == 'set-cookie':
+            raise HeaderNotSupported('This method cannot be used to remove cookies')
+""", 'new': delete_call},
+        {'file': RESP, 'old': """            name = name.lower()
+            if name == 'set-cookie':
+                raise HeaderNotSupported('This method cannot be used to set cookies')
+""", 'new': "            name = _plain_header_name(name, 'This method cannot be used to set cookies')\n"},
+    ]
+
+
+M2('c15-k2-name-helper-does-not-refuse', 'C15', 'R2',
+   _k2_c15_2(helper=_K2_HELPER.replace("        raise HeaderNotSupported(error_message)\n", "        pass\n")))
+M2('c15-k2-name-helper-compares-titlecase', 'C15', 'R2',
+   _k2_c15_2(helper=_K2_HELPER.replace("if name == 'set-cookie':", "if name == 'Set-Cookie':")))
+M2('c15-k2-name-helper-inverted-guard', 'C15', 'R2',
+   _k2_c15_2(helper=_K2_HELPER.replace("if name == 'set-cookie':", "if name != 'set-cookie':")))
+M2('c15-k2-name-helper-returns-raw-name', 'C15', 'R1',
+   _k2_c15_2(helper=_K2_HELPER.replace("    name = name.lower()\n    if name == 'set-cookie':", "    if name.lower() == 'set-cookie':")))
+M2('c15-k2-delete-header-skips-name-helper', 'C15', 'R2',
+   _k2_c15_2(delete_call="        name = name.lower()\n"))
+# the same guard spelled as a vetting statement / a predicate helper, broken
+M2('c15-k2-refuse-helper-called-before-lowering', 'C15', 'R2', [
+    {'file': RESP, 'old': "class Response:\n",
+     'new': "def _refuse_set_cookie(name, message):\n    if name == 'set-cookie':\n        raise HeaderNotSupported(message)\n\n\nclass Response:\n"},
+    {'file': RESP, 'old': """        name = name.lower()
+
+        if name == 'set-cookie':
+            raise HeaderNotSupported('This method cannot be used to remove cookies')
+""", 'new': "        _refuse_set_cookie(name, 'This method cannot be used to remove cookies')\n        name = name.lower()\n"}])
+M2('c15-k2-predicate-helper-inverted', 'C15', 'R2', [
+    {'file': RESP, 'old': "class Response:\n", 'new': "def _is_set_cookie(name):\n    return name != 'set-cookie'\n\n\nclass Response:\n"},
+    {'file': RESP, 'old': """        if name == 'set-cookie':
+            raise HeaderNotSupported('This method cannot be used to remove cookies')
+""", 'new': "        if _is_set_cookie(name):\n            raise HeaderNotSupported('This method cannot be used to remove cookies')\n"}])
+
+# further "refactoring + break" mutants: each is a behaviour-preserving rewrite the rules now read (same-class / module-level
+# helper handed the tracked value, local or closure alias bound once, module-level literal, inert extra parameter) plus one break
+_MORSEL_HELPER = "    def _morsel(self, name):\n        return self._cookies[name]\n\n    def unset_cookie("
+_DOMAIN_PATH = """        if domain:
+            self._cookies[name]['domain'] = domain
+
+        if path:
+            self._cookies[name]['path'] = path
+
+        is_secure"""
+M2('c15-k2-morsel-helper-domain-from-path', 'C15', 'R4', [
+    {'file': RESP, 'old': "    def unset_cookie(", 'new': _MORSEL_HELPER},
+    {'file': RESP, 'old': _DOMAIN_PATH, 'new': """        if domain:
+            self._morsel(name)['domain'] = path
+
+        if path:
+            self._morsel(name)['path'] = path
+
+        is_secure"""}])
+M2('c15-k2-attr-setter-helper-path-presence-widened', 'C15', 'R4', [
+    {'file': RESP, 'old': "    def unset_cookie(",
+     'new': "    def _set_attr(self, name, key, value):\n        self._cookies[name][key] = value\n\n    def unset_cookie("},
+    {'file': RESP, 'old': _DOMAIN_PATH, 'new': """        if domain:
+            self._set_attr(name, 'domain', domain)
+
+        if path is not None:
+            self._set_attr(name, 'path', path)
+
+        is_secure"""}])
+M2('c15-k2-secure-default-helper-inverted', 'C15', 'R4', [
+    {'file': RESP, 'old': "    def unset_cookie(",
+     'new': "    def _cookie_secure(self, secure):\n        return self.options.secure_cookies_by_default if secure is not None else secure\n\n"
+            "    def unset_cookie("},
+    {'file': RESP, 'old': "        is_secure = self.options.secure_cookies_by_default if secure is None else secure\n",
+     'new': "        is_secure = self._cookie_secure(secure)\n"}])
+M2('c15-k2-secure-default-helper-ignores-option', 'C15', 'R4', [
+    {'file': RESP, 'old': "    def unset_cookie(",
+     'new': "    def _cookie_secure(self, secure):\n        return True if secure is None else secure\n\n    def unset_cookie("},
+    {'file': RESP, 'old': "        is_secure = self.options.secure_cookies_by_default if secure is None else secure\n",
+     'new': "        is_secure = self._cookie_secure(secure)\n"}])
+M('c15-k2-factory-key-alias-of-raw-name', 'C15', None, HELP,
+  "    def fdel(self: Response) -> None:\n        del self._headers[normalized_name]",
+  "    key = name\n\n    def fdel(self: Response) -> None:\n        del self._headers[key]")
+M2('c15-k2-cookie-lines-helper-filters', 'C15', 'R3', [
+    {'file': RESP, 'old': "    def _wsgi_headers(self",
+     'new': "    def _cookie_lines(self):\n        return [('set-cookie', c.OutputString()) for c in self._cookies.values() if c.value]\n\n"
+            "    def _wsgi_headers(self"},
+    {'file': RESP, 'old': "items += [('set-cookie', c.OutputString()) for c in self._cookies.values()]", 'new': "items += self._cookie_lines()"}])
+M2('c15-k2-extra-lines-helper-filters', 'C15', 'R3', [
+    {'file': ARESP, 'old': "class Response(",
+     'new': "def _encode_lines(lines):\n    return [(n.encode('ascii'), v.encode('ascii')) for n, v in lines if v]\n\n\nclass Response("},
+    {'file': ARESP, 'old': "            items += [\n                (n.encode('ascii'), v.encode('ascii')) for n, v in self._extra_headers\n            ]",
+     'new': "            items += _encode_lines(self._extra_headers)"}])
+_JAR_CREATE = """        value = str(value)
+
+        if self._cookies is None:
+            self._cookies = http_cookies.SimpleCookie()
+
+        try:
+            self._cookies[name] = value"""
+M('c15-k2-jar-alias-replaced-when-present', 'C15', 'R14', RESP, _JAR_CREATE, """        value = str(value)
+
+        jar = self._cookies
+        if jar is not None:
+            jar = self._cookies = http_cookies.SimpleCookie()
+
+        try:
+            jar[name] = value""")
+M('c15-k2-jar-alias-pops-old-entry', 'C15', 'R14', RESP, _JAR_CREATE, """        value = str(value)
+
+        jar = self._cookies
+        if jar is None:
+            jar = self._cookies = http_cookies.SimpleCookie()
+        jar.pop(name, None)
+
+        try:
+            jar[name] = value""")
+_EXT_RETURN = """    return "%s; filename=%s; filename*=UTF-8''%s" % (
+        disposition_type,
+        secure_filename(value),
+        uri.encode_value(value),
+    )"""
+M('c15-k2-disposition-local-not-encoded', 'C15', 'R5', HELP, _EXT_RETURN, """    fallback = secure_filename(value)
+    encoded = value
+    return "%s; filename=%s; filename*=UTF-8''%s" % (
+        disposition_type,
+        fallback,
+        encoded,
+    )""")
+M2('c15-k2-disposition-template-constant-without-star', 'C15', 'R5', [
+    {'file': HELP, 'old': "def _format_content_disposition(",
+     'new': "_EXT_DISPOSITION = \"%s; filename=%s; filename=UTF-8''%s\"\n\n\ndef _format_content_disposition("},
+    {'file': HELP, 'old': "    return \"%s; filename=%s; filename*=UTF-8''%s\" % (", 'new': "    return _EXT_DISPOSITION % ("}])
+M2('c15-k2-unset-cookie-inert-expires-default-positive', 'C15', 'R4', [
+    {'file': RESP, 'old': "        path: Optional[str] = None,\n    ) -> None:\n        \"\"\"Unset a cookie",
+     'new': "        path: Optional[str] = None,\n        _expires: int = 1,\n    ) -> None:\n        \"\"\"Unset a cookie"},
+    {'file': RESP, 'old': "        self._cookies[name]['expires'] = -1", 'new': "        self._cookies[name]['expires'] = _expires"}])
